@@ -80,6 +80,7 @@ struct WC {
 #endif
     }
 
+    bool direct_phase = false;     // the contact model was called directly on a mesh the refiner has not seen (faces may span several voxels of the grid)
     void at_exit() {
         auto& L = S->cells(); contact_phases++;
         if (L.size() != copies.size()) { res.fail("C06", "population_changed", "contact phase changed the population"); return; }
@@ -120,6 +121,7 @@ struct WC {
         // ---- C07 (2)(3) with independent geometry; skip on large tissues (O(nodes x faces))
         size_t total_nodes = 0; for (auto& v : views) total_nodes += v.pos.size();
         if (total_nodes > 1500) { res.probes.hit("c07_geometry_skipped_large"); return; }
+        if (direct_phase) return;      // node normals / curvatures of a never-iterated tissue are not what the direction rules of C07 assume
         const double delta = 1e-9 * cut;
         for (size_t i = 0; i < L.size() && res.viol.empty(); i++) {
             auto& N = cell_tester::nodes(*L[i]);
@@ -209,6 +211,9 @@ struct WC {
         sim::set_phase_cb([this](int ph, bool en, bool reg) { on_phase(ph, en, reg); });
         for (const Op& op : pl.ops) {
             if (!res.viol.empty()) break;
+            if (op.name == "contact_only") {       // C06: the contact model alone, before any refinement pass
+                direct_phase = true; try { S->contact().run(S->cells()); } catch (std::exception& e) { res.fail("C10", "contact.exception", e.what()); } direct_phase = false;
+                res.probes.hit("direct_contact_phases"); iters++; continue; }
             if (op.name != "iter") continue;
             for (int i = 0; i < (int)op.arg(0, 1); i++) {
                 if (S->cells().empty()) break;
@@ -268,6 +273,9 @@ Plan gen_wc(uint64_t seed, const std::string& tier, const std::string& focus) {
     pl.p["clock"] = 0; pl.p["bf_every"] = 1;
     draw_schedule(pl, r, thorough ? 16 : 8);
     if (r.coin(0.5)) { pl.p["team"] = 1; pl.p["strategy"] = 0; }
+    if (focus == "C06" && r.coin(0.25)) {     // the contact model alone on meshes whose triangles span several voxels of its grid (l_min far below the edge lengths; no refinement pass before)
+        double lm = R * r.uni(0.03, 0.08), k = lm / lmin; pl.p["lmin"] = lm; pl.p["cut_adh"] = pl.p["cut_adh"] * k; pl.p["cut_rep"] = pl.p["cut_rep"] * k;
+        pl.ops.push_back({"contact_only", {}}); return pl; }
     pl.ops.push_back({"iter", {(double)r.range(2, thorough ? 20 : 10)}});
     return pl;
 }
